@@ -434,6 +434,31 @@ def generate(repo, build_dir, lib_unit_path, out_path):
     return dict(entries=[n for n in decls if n not in [s.split(' ')[0] for s in skipped]], skipped=skipped)
 
 
+def index(path):
+    """metadata (id, tags, line range) of the generated catalogue functions"""
+    text = open(path).read()
+    res = []
+    for m in re.finditer(r'^//#fn id=(catalogue::\S+) tags=(\S*) mode=(\w+)$', text, re.M):
+        st = m.end() + 1
+        ob = None
+        dp = 0
+        for pos, ch in rx.scan_code(text, st):
+            if ch in '([':
+                dp += 1
+            elif ch in ')]':
+                dp -= 1
+            elif ch == '{' and dp == 0:
+                ob = pos
+                break
+        if ob is None:
+            continue
+        cb = rx.match_close(text, ob)
+        res.append(dict(id=m.group(1), tags=[t for t in m.group(2).split(',') if t], mode=m.group(3),
+                        out_lines=[rx.line_of(text, st), rx.line_of(text, cb)], rules=['CATALOGUE'], contract=[],
+                        src_file='catalogue expansion', src_lines=[]))
+    return res
+
+
 if __name__ == '__main__':
     r = generate('/repo', os.path.join(ROOT, 'build'), os.path.join(ROOT, 'build', 'desert.rs'), os.path.join(ROOT, 'build', 'catalogue.rs'))
     print(r)
